@@ -544,6 +544,20 @@ func registerStr(vm *VM) {
 		I[name] = func(vm *VM, _ *frame, a []Value) Value {
 			x, ok1 := a[0].(string)
 			y, ok2 := a[1].(string)
+			if !ok1 && ok2 && !hasDec(atomsOf(a[0])) {
+				// symbolic subject (bytes), concrete pattern: decided byte by byte
+				bs := strBytes(a[0])
+				switch name {
+				case "strings.Index":
+					return vm.symIndex(bs, y)
+				case "strings.Contains":
+					return vm.symIndex(bs, y) >= 0
+				case "strings.HasPrefix":
+					return len(bs) >= len(y) && vm.Decide(vm.matchAt(bs, 0, y))
+				case "strings.HasSuffix":
+					return len(bs) >= len(y) && vm.Decide(vm.matchAt(bs, len(bs)-len(y), y))
+				}
+			}
 			if !ok1 || !ok2 {
 				vmErr("%s on symbolic strings (%s, %s)", name, describe(a[0]), describe(a[1]))
 			}
@@ -646,7 +660,10 @@ func registerStr(vm *VM) {
 	I["strings.IndexByte"] = func(vm *VM, _ *frame, a []Value) Value {
 		s, ok := a[0].(string)
 		if !ok {
-			vmErr("IndexByte on symbolic string")
+			if hasDec(atomsOf(a[0])) {
+				vmErr("IndexByte on a string containing a decimal atom")
+			}
+			return vm.symIndex(strBytes(a[0]), string([]byte{byte(vm.concInt(a[1], "byte"))}))
 		}
 		return int64(strings.IndexByte(s, byte(vm.concInt(a[1], "byte"))))
 	}
@@ -694,4 +711,24 @@ func splitSettled(atoms []Atom, sep string) []Value {
 
 func pow10(n int) float64 {
 	return mathPow10(n)
+}
+
+// matchAt: the bytes bs[i:i+len(pat)] equal pat.
+func (vm *VM) matchAt(bs []Value, i int, pat string) *smt.Term {
+	c := smt.True
+	for j := 0; j < len(pat); j++ {
+		c = smt.And(c, smt.Eq(toTerm(bs[i+j]), smt.Int64(int64(pat[j]))))
+	}
+	return c
+}
+
+// symIndex is strings.Index for a concrete pattern in a string of (possibly symbolic) bytes:
+// the first position where the pattern matches, deciding each candidate in turn.
+func (vm *VM) symIndex(bs []Value, pat string) int64 {
+	for i := 0; i+len(pat) <= len(bs); i++ {
+		if vm.Decide(vm.matchAt(bs, i, pat)) {
+			return int64(i)
+		}
+	}
+	return -1
 }
